@@ -164,6 +164,8 @@ func TestSyncer(t *testing.T) {
 					return chain.Range(from.Height()+2, gc.To+1), nil
 				case "closed":
 					return nil, context.Canceled
+				case "cancelWrapped": // a peer-side failure that happens to wrap context.Canceled while the Syncer itself is alive
+					return nil, fmt.Errorf("scripted getter error: stream reset: %w", context.Canceled)
 				}
 				end := from.Height() + 1 + uint64(o.k)
 				if end > gc.To { // a contract-abiding getter never returns more than was asked for
@@ -247,7 +249,7 @@ func TestSyncer(t *testing.T) {
 							byHCh <- struct{}{}
 							wait()
 						}
-					case "collect": // every asynchronous delivery of the same header must have finished; count the accepted ones
+					case "collect", "collectAll": // every asynchronous delivery must have finished; count the accepted ones
 						for _, ch := range asyncGossip {
 							tmo := time.NewTimer(5 * time.Second) // real threads: generous, a loaded machine must not look like a hang
 							select {
